@@ -36,7 +36,7 @@ RULE = (
 REAL = ["BlochBoundary (pad correction, wrap padding)", "place_objects", "apply_params", "forward", "custom_fdtd_forward", "PEC/PMC/PML on the other axes"]
 STUB = ["per-cell material arrays are written into the placed ArrayContainer (np.tile of the base arrays)", "tqdm disabled"]
 ASSUMPTIONS = [
-    "float64 / complex128; criterion 1e-11 relative to the per-array max",
+    "float64 / complex128; criterion 1e-11 relative to the per-array max (arrays below 1e-3 of the field maximum are judged on that absolute scale)",
     "on non-uniform grids the supercell's cell widths are the base widths tiled and L_a is the sum of the base widths (the statement tiles materials and fields; tiling the mesh with them is the only reading under which both domains describe the same structure)",
     "no sources (the statement is about free evolution of tiled initial data)",
     "field detectors are used only in real (k=0) runs: a real-typed record of a complex field keeps the real part only, which does not commute with the phase",
@@ -260,13 +260,16 @@ def execute(spec):
     arrays = [rp.set_fields(scenes[0], E0, H0), rp.set_fields(scenes[1], lift(E0, 1), lift(H0, 1))]
     steppers = [dr.Stepper(s) for s in scenes]
     states = [st.state0(a) for st, a in zip(steppers, arrays)]
-    fb = None
+    fb, g_run = None, 0.0
     for t in range(T):
         states = [st.fwd(s) for st, s in zip(steppers, states)]
         rp.count_steps(stats, 2, scenes[0].dt)
         fb = dr.fields_np(states[0])
-        mon.dicts("supercell_fields", t, lift_fields(fb), dr.fields_np(states[1]), TOL)
-        mon.dicts("supercell_records", t, lift_records(dr.detectors_np(states[0])), dr.detectors_np(states[1]), TOL)
+        g = rp.field_scale(fb)
+        g_run = max(g_run, g)
+        mon.dicts("supercell_fields", t, lift_fields(fb), dr.fields_np(states[1]), TOL, floors=rp.FLOOR * g)
+        want = lift_records(dr.detectors_np(states[0]))
+        mon.dicts("supercell_records", t, want, dr.detectors_np(states[1]), TOL, floors=rp.record_floors(spec, g_run, want))
     nontrivial = bool(np.max(np.abs(fb["E"])) > 0 or np.max(np.abs(fb["H"])) > 0)
 
     lp = spec.get("loop") or {}
